@@ -963,4 +963,117 @@ def readBModels (fuel : Nat) (nodes faces : List Nat) (recs : List (List Val)) (
   | .error e, _ => .error e
   | _, .error e => .error e
 
+
+/-! ## detail props (`_lmp_write_detail_props` / `_lmp_read_detail_props`): records, sprite table, model names -/
+
+inductive DetailKind where
+  | model (name : Nat)
+  | sprite (rect : List UInt32) (scale : UInt32)
+  | shape (rect : List UInt32) (scale : UInt32) (cross : Bool) (ang size : Int)
+deriving Repr, DecidableEq
+
+structure DetailV where
+  /-- origin and angles: 6 float bit patterns -/
+  f6 : List UInt32
+  leaf : Int
+  l0 : Int
+  l1 : Int
+  l2 : Int
+  l3 : Int
+  styles : Int
+  styleCount : Int
+  sway : Int
+  orient : Int
+  kind : DetailKind
+deriving Repr, DecidableEq
+
+abbrev RectFinder := Finder (List UInt32) (List UInt32)
+
+def rectKey (r : List UInt32) : List UInt32 := r
+
+def oneF : UInt32 := 0x3f800000
+
+structure DetailSt where
+  fModel : IdFinder
+  fSprite : RectFinder
+
+def detailRec (d : DetailV) (mdl : Nat) (dtype : Int) (ang size : Int) (scale : UInt32) : List Val :=
+  d.f6.map Val.f32 ++ [.int mdl, .int d.leaf, .int d.l0, .int d.l1, .int d.l2, .int d.l3, .int d.styles, .int d.styleCount,
+    .int d.sway, .int ang, .int size, .int d.orient, .int dtype, .f32 scale]
+
+def writeDetail (s : DetailSt) (d : DetailV) : List Val × DetailSt :=
+  match d.kind with
+  | .model name => (detailRec d (s.fModel.call idKey name).1 0 0 1 oneF, ⟨(s.fModel.call idKey name).2, s.fSprite⟩)
+  | .sprite rect scale => (detailRec d (s.fSprite.call rectKey rect).1 1 0 1 scale, ⟨s.fModel, (s.fSprite.call rectKey rect).2⟩)
+  | .shape rect scale cross ang size =>
+    (detailRec d (s.fSprite.call rectKey rect).1 (if cross then 3 else 2) ang size scale, ⟨s.fModel, (s.fSprite.call rectKey rect).2⟩)
+
+/-- records, model-name dictionary, sprite table (both start empty) -/
+def writeDetails : DetailSt → List DetailV → List (List Val) × DetailSt
+  | s, [] => ([], s)
+  | s, d :: ds => ((writeDetail s d).1 :: (writeDetails (writeDetail s d).2 ds).1, (writeDetails (writeDetail s d).2 ds).2)
+
+def readDetail (models : List Nat) (sprites : List (List UInt32)) (r : List Val) : Except LumpErr DetailV :=
+  match f32sOf (r.take 6), r.drop 6 with
+  | some f6, [.int mdl, .int leaf, .int l0, .int l1, .int l2, .int l3, .int st, .int sc, .int sw, .int ang, .int size,
+              .int orient, .int dtype, .f32 scale] =>
+    let mk (k : DetailKind) : DetailV :=
+      { f6 := f6, leaf := leaf, l0 := l0, l1 := l1, l2 := l2, l3 := l3, styles := st, styleCount := sc, sway := sw,
+        orient := orient, kind := k }
+    if dtype = 0 then
+      match pyIdx models mdl with
+      | some n => .ok (mk (.model n))
+      | none => .error .badData
+    else if dtype = 1 then
+      match pyGet sprites mdl with
+      | some rect => .ok (mk (.sprite rect scale))
+      | none => .error .badData
+    else if dtype = 2 ∨ dtype = 3 then
+      match pyGet sprites mdl with
+      | some rect => .ok (mk (.shape rect scale (dtype == 3) ang size))
+      | none => .error .badData
+    else .error .badEnum
+  | _, _ => .error .badData
+
+def readDetails (models : List Nat) (sprites : List (List UInt32)) : List (List Val) → Except LumpErr (List DetailV)
+  | [] => .ok []
+  | r :: rs =>
+    match readDetail models sprites r with
+    | .error e => .error e
+    | .ok d =>
+      match readDetails models sprites rs with
+      | .error e => .error e
+      | .ok ds => .ok (d :: ds)
+
+/-! ## static props: model dictionary indices and the leaf-index array (`_lmp_write_props`, first loop) -/
+
+structure PropRefV where
+  model : Nat
+  /-- the leafs of `prop.visleafs` in the order the set is iterated -/
+  leafs : List Nat
+deriving Repr, DecidableEq
+
+structure PropIdxSt where
+  fModel : IdFinder
+  fLeaf : IdFinder
+  leafArray : List Nat
+
+/-- per prop: (offset into the leaf array, number of leafs, model index) -/
+def writePropIdx : PropIdxSt → List PropRefV → List (Nat × Nat × Nat) × PropIdxSt
+  | s, [] => ([], s)
+  | s, p :: ps =>
+    let rm := s.fModel.call idKey p.model
+    let rl := Finder.callAll idKey s.fLeaf p.leafs
+    let sorted := rl.1.mergeSort (fun a b => decide (a ≤ b))
+    let t := writePropIdx ⟨rm.2, rl.2, s.leafArray ++ sorted⟩ ps
+    ((s.leafArray.length, p.leafs.length, rm.1) :: t.1, t.2)
+
+/-- the reader's view of one prop: model name, and the leaf list `visleaf_list[first : first + count]` -/
+def readPropIdx (models leafList : List Nat) : List (Nat × Nat × Nat) → Except LumpErr (List PropRefV)
+  | [] => .ok []
+  | (first, count, mi) :: rs =>
+    match models[mi]?, readPropIdx models leafList rs with
+    | some m, .ok ps => .ok ({ model := m, leafs := pySlice leafList first count } :: ps)
+    | _, _ => .error .badData
+
 end C11
